@@ -252,7 +252,7 @@ package mcp
 // the whole type lattice at once).
 
 //@ sweepscope[C06] kinds=typeassert,close,nilmap,index,div,hashkey files=internal/httputil/accept.go,internal/sseutil/writer.go,internal/session/session.go,streamable_server.go,sse_server.go,stdio_server.go,handler.go,manager_tools.go,manager_prompt.go,manager_resource.go,manager_lifecycle.go,jsonrpc.go,mcp_types.go,responder_json.go,responder_sse.go,responder.go,session.go,server.go,notifier.go,mcp_notification.go,internal/session/session.go
-//@ sweepscope[C07] kinds=typeassert,close,nilmap,index,div,hashkey files=internal/utils/json.go,streamable_client.go,sse_client.go,transport_stdio.go,client.go,stdio_client.go,utils_json.go,mcp_tools.go,mcp_prompts.go,mcp_resources.go,transport_http.go except=.With,.New
+//@ sweepscope[C07] kinds=typeassert,close,nilmap,index,div,hashkey,freshdecode files=internal/utils/json.go,streamable_client.go,sse_client.go,transport_stdio.go,client.go,stdio_client.go,utils_json.go,mcp_tools.go,mcp_prompts.go,mcp_resources.go,transport_http.go except=.With,.New
 
 // Maps that are created by the constructor and never reassigned: final fields,
 // non-nil by type invariant (assumed for objects built by their constructors;
@@ -1600,4 +1600,30 @@ package mcp
 //@ func SSEServer.handleMessage
 //@   ensures[C03 every-posted-message-gets-a-status] status(w) != 0
 //@   ensures[C03 only-post-is-allowed-on-the-message-endpoint] old(status(w)) == 0 && old(r.Method) != "POST" ==> status(w) == 405
+//@
+// ---- seventh measurement round (ids -8): general facts behind the misses ----
+// C01 / C02 — every frame and every listed item is decoded into storage of its own (a variable hoisted out of
+// the reading loop is overwritten in place while an earlier answer still points into it)
+//@ sweepscope[C01] kinds=freshdecode files=transport_stdio.go,streamable_client.go,sse_client.go,stdio_client.go,client.go,utils_json.go,stdio_server.go,sse_server.go,streamable_server.go
+//@ sweepscope[C02] kinds=freshdecode files=utils_json.go,internal/utils/json.go,mcp_tools.go,mcp_prompts.go,mcp_resources.go,mcp_types.go,client.go,transport_stdio.go,streamable_client.go,sse_client.go
+//@
+// C09 — the bytes of a stdio frame are this call's own memory until they are written (nothing pooled or shared)
+//@ func stdioTransport.writeResponse
+//@   before call Write#1 assert[C09 the-frame-written-is-this-calls-own-memory] isfresh(arg1)
+//@
+// C19 — WithHTTPHeaders accumulates in the transport configuration too (the legacy SSE client reads it from there)
+//@ func WithHTTPHeaders$1
+//@   loop 1 invariant[C19] c.transportConfig.httpHeaders != nil && (forall k string :: old(k in c.transportConfig.httpHeaders) ==> (k in c.transportConfig.httpHeaders)) && (forall k string :: visited(1, k) ==> (k in c.transportConfig.httpHeaders) && same(c.transportConfig.httpHeaders[k], headers[k])) && (forall k string :: (k in headers) ==> ranged(1, k))
+//@   ensures[C19 earlier-static-headers-are-kept] forall k string :: old(k in c.transportConfig.httpHeaders) ==> (k in c.transportConfig.httpHeaders)
+//@   ensures[C19 the-given-headers-are-set] forall k string :: (k in headers) ==> (k in c.transportConfig.httpHeaders) && same(c.transportConfig.httpHeaders[k], headers[k])
+//@
+// C07 / C01 — after a garbage line the stdio reader resumes exactly behind it: the new decoder first drains what
+// the old one had already read ahead, so a well-formed answer in the same read is not lost
+//@ func stdioClientTransport.readLoop
+//@   before call NewDecoder#1 assert[C07,C01 resynchronisation-starts-with-what-the-old-decoder-had-read-ahead] rdfirst(arg0) == t.decoder.Buffered()
+//@
+// C08 — when the legacy SSE transport closes, every pending call is woken: each registered response channel is closed
+//@ func sseClientTransport.close
+//@   loop 1 invariant[C08] (forall k string :: visited(1, k) ==> closed(t.responses[k])) && (forall k string :: (k in t.responses) ==> ranged(1, k))
+//@   before call Unlock#2 assert[C08 every-pending-call-is-woken-when-the-transport-closes] forall k string :: atlock(k in t.responses) ==> closed(atlock(t.responses[k]))
 //@
